@@ -288,13 +288,34 @@ func genOutcome(t *rapid.T, signal string, cur *[]byte, canExpire, mustRetry boo
 	return o
 }
 
+// zeroIntervalFailures: how long the scripted backend keeps failing in the shutdown-zero-interval mode (afterwards it
+// recovers, so every case ends).  laterAttemptsAllowed: with a zero wait the timer of the wait and the stop signal are
+// ready together and the select between them is a coin toss on the unchanged tree, so a few attempts can follow
+// Shutdown; 40 in a row have probability 2^-40.
+const (
+	zeroIntervalFailures = 1500
+	laterAttemptsAllowed = 40
+)
+
 func gen(t *rapid.T) Script {
 	s := Script{Signal: rapid.SampledFrom([]string{sig.Logs, sig.Logs, sig.Traces, sig.Metrics, sig.Profiles}).Draw(t, "signal")}
 	s.Payload = genPayload(t, s.Signal)
 	s.Backoff = genBackoff(t)
-	mode := rapid.SampledFrom([]string{"plain", "plain", "plain", "plain", "plain", "plain", "plain", "disabled", "shutdown", "shutdown", "shutdown-timer", "cancel"}).Draw(t, "mode")
+	mode := rapid.SampledFrom([]string{"plain", "plain", "plain", "plain", "plain", "plain", "plain", "disabled", "shutdown", "shutdown", "shutdown-timer", "cancel", "shutdown-zero-interval"}).Draw(t, "mode")
 	if mode == "disabled" {
 		s.Backoff.Enabled = false
+	}
+	if mode == "shutdown-zero-interval" {
+		// initial_interval: 0 is legal (a retry without a wait): a backend that keeps failing transiently is
+		// retried in a tight loop, and only Shutdown (a few ms later) can end it - there is no wait to interrupt,
+		// the loop itself has to notice that the exporter is shutting down
+		s.Backoff.InitialUS, s.Backoff.MaxIntUS, s.Backoff.MaxElapsedMS = 0, int64(rapid.SampledFrom([]int{0, 0, 1000}).Draw(t, "zmax_us")), 0
+		s.Queue = rapid.SampledFrom([]string{"", "", "wfr", "async"}).Draw(t, "zqueue")
+		for i := 0; i < zeroIntervalFailures; i++ {
+			s.Outcomes = append(s.Outcomes, Outcome{})
+		}
+		s.Stop = &Stop{Kind: "shutdown", Mode: "timer", DelayUS: rapid.IntRange(300, 3000).Draw(t, "zstop_delay_us")}
+		return s
 	}
 	if rapid.IntRange(0, 9).Draw(t, "timeout?") < 7 {
 		s.TimeoutMS = rapid.IntRange(5, 40).Draw(t, "timeout_ms")
@@ -877,6 +898,21 @@ func runInner(s *Script) (bool, *vt.Finding) {
 				return true, vt.Failf("shutdown-return-slow/timing", "the call returned %v after Shutdown returned (wait asked for: %v)", late, lo)
 			}
 			cR.Class("shutdown-interrupts-wait:" + st.Mode)
+		}
+	}
+	if st := s.Stop; st != nil && st.Kind == "shutdown" && s.Backoff.Enabled && s.Backoff.InitialUS == 0 && tr.stopped {
+		sdMu.Lock()
+		ret := sdRet
+		sdMu.Unlock()
+		later := 0
+		for _, a := range tr.attempts {
+			if !ret.IsZero() && a.start.After(ret) {
+				later++
+			}
+		}
+		cR.Class("shutdown-during-zero-interval-retrying")
+		if later > laterAttemptsAllowed {
+			return true, vt.Failf("retrying-continues-after-shutdown", "initial_interval 0, backend failing transiently: %d attempts were started after Shutdown had returned (%d attempts in all)", later, len(tr.attempts))
 		}
 	}
 	if f := evalTrace(cR, tr); f != nil {
